@@ -672,9 +672,9 @@ Proof.
 Qed.
 Lemma skipn_nth : forall (l : list Z) k x, nth_error l k = Some x -> exists tl, skipn k l = x :: tl.
 Proof.
-  induction l as [|a l IH]; destruct k; cbn [nth_error skipn]; intros x H; try discriminate.
-  - inversion H; eauto.
-  - apply IH; auto.
+  induction l as [|a l IH]; destruct k; intros x H; cbn [nth_error] in H; try discriminate.
+  - inversion H; subst. exists l. reflexivity.
+  - change (skipn (S k) (a :: l)) with (skipn k l). apply IH; auto.
 Qed.
 
 Lemma region_rest_head : forall d off, 0 <= off < dsize d ->
